@@ -6,6 +6,7 @@ import (
 	"bufio"
 	"fmt"
 	"io"
+	"os"
 	"os/exec"
 	"strconv"
 	"strings"
@@ -79,6 +80,10 @@ func NewSolver(kind string, timeoutMs int) (*Solver, error) {
 		return nil, err
 	}
 	s := &Solver{cmd: cmd, in: in, out: bufio.NewReaderSize(out, 1<<16), decl: map[string]int{}, kind: kind}
+	if dir := os.Getenv("GOSYM_SOLVERLOG"); dir != "" {
+		f, _ := os.Create(fmt.Sprintf("%s/solver_%d.smt2", dir, cmd.Process.Pid))
+		s.log = f
+	}
 	if kind == "cvc5" {
 		s.send("(set-logic ALL)\n")
 	}
